@@ -313,6 +313,15 @@ def c_template_matching(chk):
                And(Eq(vp, e["root"]), Eq(e["generic_f"], SHOOT(vw, e["generic_x"])), Eq(e["a"], 0), Le(e["b"], vw), Le(e["b"], cs2 / vw),
                    Eq(e["xtol"], real("atol")), Eq(e["rtol"], real("rtol"))), func=fn)
         chk.vc(f"template.findMatching.vm-is-min-cb-vw.{i}", p.pc, Eq(vm, vm_spec), func=fn)
+        # the enthalpy w+ = wFromAlpha(alpha+(v+)) changes sign where D(v) := (1 - 3 alpha+(v)) mu - nu vanishes; by the lemma below
+        # D(v) (1 - v^2) v- = -Q(v) with Q(v) = v- nu (mu-1) v^2 - mu (1 + v-^2 (nu-1)) v + nu v-, whose roots have product cs^2, so only the
+        # smaller root v_s can lie below vpMax = min(cs^2/vw, vw).  If it lies inside (0, vpMax) the bracket must end below it
+        # (the root finder would otherwise be handed a residual with a pole).
+        disc = (mu_ + vm**2 * mu_ * (nu_ - 1))**2 - 4 * vm**2 * nu_**2 * (mu_ - 1)        # (vm: the v- of this path, = min(cb, vw) by the obligation above)
+        v_s = (mu_ * (1 + vm**2 * (nu_ - 1)) - sp.sqrt(disc)) / (2 * vm * nu_ * (mu_ - 1))
+        vpmax0 = sp.Min(cs2 / vw, vw)
+        chk.vc(f"template.findMatching.bracket-ends-below-the-enthalpy-sign-change.{i}", p.pc + [Ge(disc, 0), Gt(v_s, 0), Lt(v_s, vpmax0)],
+               Lt(e["b"], v_s), func=fn)
         # T+ : w+(T+) = wN * wFromAlpha(alpha+), alpha+ the junction relation solved at (vp, vm); T- : _findTm(vm, vp, T+)
         wcalls = [c_ for c_ in p.events if c_.get("name") == "wFromAlpha"]
         if len(wcalls) != 1:
@@ -325,6 +334,10 @@ def c_template_matching(chk):
         chk.vc(f"template.findMatching.Tminus-from-findTm.{i}", p.pc, Eq(Tm, FTM(vm, vp, Tp)), func=fn)
     if min(kinds.values()) == 0:
         chk.undecided.append(f"template findMatching: path classes missing {kinds}")
+    vq, aq, vmq = real("vq"), real("aq"), real("vmq")
+    Qv = vmq * nu_ * (mu_ - 1) * vq**2 - mu_ * (1 + vmq**2 * (nu_ - 1)) * vq + nu_ * vmq
+    chk.vc("lemma.template.enthalpy-sign-change-is-a-root-of-Q", POS + [Gt(vq, 0), Lt(vq, 1), Gt(vmq, 0), Lt(vmq, 1), wall_relation(vq, vmq, aq), Eq((nu_ - 1) * cb**2, 1)],
+           Eq(((1 - 3 * aq) * mu_ - nu_) * (1 - vq**2) * vmq, -Qv), func="lemma", kind="lemma")
     # matchDeflagOrHybInitial
     fn2 = f"{TQ}.matchDeflagOrHybInitial"
     vpin = real("vpIn")
